@@ -73,8 +73,8 @@ def scribble(m):
   m.data @= ~m.data
 
 class C18ReuseSrcCL(Component):
-  """a CL master. mode 'reuse': keeps ONE request object and overwrites its fields for every new request (as an RTL
-  master's message signal does); 'reuse_scribble': additionally scribbles over it right after the send; 'fresh_scribble':
+  """a CL master. mode 'reuse': keeps ONE request object and overwrites its fields with the next request right after
+  each successful send (as an RTL master's message signal does); 'reuse_scribble': additionally scribbles over it right after the send; 'fresh_scribble':
   a fresh object per request, scribbled over right after the send; 'fresh': fresh objects, never touched again."""
   def construct(s, Type, reqs, initial_delay, interval_delay, mode):
     s.send = CallerIfcCL(Type=Type)
@@ -99,6 +99,10 @@ class C18ReuseSrcCL(Component):
             m = Type(r[0], r[1], r[2], r[3], r[4])
           s.send(m)
           if s.mode.endswith('scribble'): scribble(m)
+          elif s.mode == 'reuse' and s.idx < len(s.reqs):
+            # like an RTL master's message signal: the one object already shows the NEXT request after a successful send
+            r = s.reqs[s.idx]
+            m.type_ @= r[0]; m.opaque @= r[1]; m.addr @= r[2]; m.len @= r[3]; m.data @= r[4]
           s.count = s.delay
 
   def done(s):
